@@ -862,26 +862,36 @@ pub fn run_pipe(rng: &mut Rng, _count: usize, thorough: bool, extra: &[String], 
     let mut pads: Vec<usize> = vec![0, 1 << 10, 16 << 10, 60 << 10, (64 << 10) - 64, 64 << 10, (64 << 10) + 64, 100 << 10, 256 << 10, 1 << 20, 4 << 20];
     if thorough { pads.extend_from_slice(&[2 << 20, 3 << 20, 8 << 20, 65 << 10, 128 << 10]); }
     for _ in 0..3 { pads.push(rng.range(1, 300 << 10)); }
-    let mut cases: Vec<(usize, bool, bool)> = Vec::new();
+    // (pad on stdout, reads its input, instance above the pipe capacity, pad on STDERR: the solver's diagnostics are
+    // inherited by the caller in the pinned code - whatever their volume the call returns)
+    let mut cases: Vec<(usize, bool, bool, usize)> = Vec::new();
     for p in pads.iter() {
         for read_all in [true, false] {
             for big_in in [false, true] {
-                cases.push((*p, read_all, big_in));
+                cases.push((*p, read_all, big_in, 0));
             }
         }
     }
-    let mine: Vec<(usize, bool, bool)> = cases.into_iter().enumerate().filter(|(i, _)| i % shard.1 == shard.0).map(|(_, c)| c).collect();
+    for e in [1usize << 10, 100 << 10, 1 << 20] {
+        for read_all in [true, false] {
+            for big_in in [false, true] {
+                cases.push((if e == 100 << 10 { 100 << 10 } else { 0 }, read_all, big_in, e));
+            }
+        }
+    }
+    let mine: Vec<(usize, bool, bool, usize)> = cases.into_iter().enumerate().filter(|(i, _)| i % shard.1 == shard.0).map(|(_, c)| c).collect();
     // all calls of this shard run concurrently, each in its own thread; a call that has not
     // returned after 10 s is reported as hung (its thread stays blocked until the process exits)
     let (tx, rx) = std::sync::mpsc::channel::<(usize, String, u128)>();
     let mut in_lens = Vec::new();
-    for (idx, (pad, read_all, big_in)) in mine.iter().enumerate() {
+    for (idx, (pad, read_all, big_in, errpad)) in mine.iter().enumerate() {
         let n_cl = if *big_in { 50_000 } else { 2 };
         in_lens.push(n_cl);
-        let (tx, vdpll, ans, pad, read_all) = (tx.clone(), env.vdpll.clone(), ans.clone(), *pad, *read_all);
+        let (tx, vdpll, ans, pad, read_all, errpad) = (tx.clone(), env.vdpll.clone(), ans.clone(), *pad, *read_all, *errpad);
         std::thread::spawn(move || {
             let t0 = std::time::Instant::now();
             let mut opts = vec!["--pad".to_string(), pad.to_string()];
+            if errpad > 0 { opts.push("--pad-err".to_string()); opts.push(errpad.to_string()); }
             if read_all { opts.push("--print-file".to_string()); opts.push(ans); } else { opts.push("--no-read".to_string()); }
             let r = guarded(|| {
                 let mut s = ExternalSatSolver::new(vdpll, opts);
@@ -903,12 +913,12 @@ pub fn run_pipe(rng: &mut Rng, _count: usize, thorough: bool, extra: &[String], 
             Err(_) => break,
         }
     }
-    for (idx, (pad, read_all, big_in)) in mine.iter().enumerate() {
+    for (idx, (pad, read_all, big_in, errpad)) in mine.iter().enumerate() {
         out.case("pipe");
         // size of the instance text: "p cnf 2 N\n" + N lines "1 -2 0\n" / "1 2 0\n"
         let n_cl = in_lens[idx];
         let in_len = format!("p cnf 2 {}\n", n_cl).len() + (n_cl / 2) * 7 + (n_cl - n_cl / 2) * 7 - (n_cl / 2);
-        out.inp(&format!("pipe in_len={} pad={} answer=23 read={} big_in={} cap={}", in_len, pad, if *read_all { "all" } else { "none" }, big_in, cap));
+        out.inp(&format!("pipe in_len={} pad={} answer=23 read={} big_in={} cap={} errpad={}", in_len, pad, if *read_all { "all" } else { "none" }, big_in, cap, errpad));
         match &results[idx] {
             Some((txt, ms)) => out.out(&format!("returned {} ms={}", txt, ms)),
             None => out.out("hung"),
